@@ -21,6 +21,7 @@ CHECKS = {
     'C06': 'harness.c06',
     'C07': 'harness.c07',
     'C08': 'harness.c08',
+    'C09': 'harness.c09',
     'C10': 'harness.c10',
     'C12': 'harness.c12',
     'C19': 'harness.c19',
